@@ -104,7 +104,21 @@ func LoadProgram(repo, specDir string, patterns []string) (*Program, error) {
 }
 
 func (p *Program) InRepo(fn *ssa.Function) bool {
-	return fn.Pkg != nil && strings.HasPrefix(fn.Pkg.Pkg.Path(), modPath)
+	if fn.Pkg != nil {
+		return strings.HasPrefix(fn.Pkg.Pkg.Path(), modPath)
+	}
+	// synthetic wrappers (promoted methods, bound methods) have no package: go by the receiver's type
+	if recv := fn.Signature.Recv(); recv != nil {
+		if n, ok := derefNamed(recv.Type()); ok && n.Obj().Pkg() != nil {
+			return strings.HasPrefix(n.Obj().Pkg().Path(), modPath)
+		}
+	}
+	if len(fn.Params) > 0 {
+		if n, ok := derefNamed(fn.Params[0].Type()); ok && n.Obj().Pkg() != nil {
+			return strings.HasPrefix(n.Obj().Pkg().Path(), modPath)
+		}
+	}
+	return false
 }
 
 // position renders a token position relative to the repository.
@@ -245,6 +259,27 @@ func (p *Program) lookupObject(pkgName, name string, ctx *types.Package) types.O
 		if o := c.Scope().Lookup(name); o != nil {
 			return o
 		}
+	}
+	return nil
+}
+
+// fnPkg is the types.Package a function belongs to (synthetic wrappers: the package of the receiver type).
+func fnPkg(fn *ssa.Function) *types.Package {
+	if fn.Pkg != nil {
+		return fn.Pkg.Pkg
+	}
+	if recv := fn.Signature.Recv(); recv != nil {
+		if n, ok := derefNamed(recv.Type()); ok {
+			return n.Obj().Pkg()
+		}
+	}
+	if len(fn.Params) > 0 {
+		if n, ok := derefNamed(fn.Params[0].Type()); ok {
+			return n.Obj().Pkg()
+		}
+	}
+	if fn.Parent() != nil {
+		return fnPkg(fn.Parent())
 	}
 	return nil
 }
